@@ -991,6 +991,51 @@ impl<'a> World<'a> {
         }
     }
 
+    /// A filter written from the data that is live right now (a tag of some dict or grid row, compared with its own
+    /// value or merely tested), so that match / first-match / match-all regularly select something.
+    fn filter_from_live_data(&mut self) -> String {
+        fn ident(k: &str) -> bool {
+            let mut c = k.chars();
+            matches!(c.next(), Some(f) if f.is_ascii_lowercase()) && c.all(|x| x.is_ascii_alphanumeric() || x == '_')
+        }
+        let mut recs: Vec<Dict> = Vec::new();
+        for s in &self.slots {
+            match &s.mirror {
+                Value::Dict(d) => recs.push(d.clone()),
+                Value::Grid(g) => recs.extend(g.rows.iter().cloned()),
+                _ => {}
+            }
+        }
+        let mut terms: Vec<String> = Vec::new();
+        for _ in 0..1 + self.rng.below(2) {
+            if recs.is_empty() {
+                break;
+            }
+            let d = &recs[self.rng.below(recs.len())];
+            let keys: Vec<&String> = d.keys().filter(|k| ident(k)).collect();
+            if keys.is_empty() {
+                continue;
+            }
+            let k = keys[self.rng.below(keys.len())].clone();
+            let v = d.get(&k).cloned().unwrap_or(Value::Null);
+            let lit = match &v {
+                Value::Number(n) if n.value.is_finite() => Some(v.to_string()),
+                Value::Bool(_) | Value::Str(_) | Value::Ref(_) | Value::Uri(_) | Value::Symbol(_) | Value::Date(_) | Value::Time(_) => Some(v.to_string()),
+                _ => None,
+            };
+            terms.push(match (lit, self.rng.below(4)) {
+                (Some(l), 0 | 1) => format!("{k} == {l}"),
+                (Some(l), 2) => format!("{k} >= {l}"),
+                _ => k,
+            });
+        }
+        if terms.is_empty() {
+            return "site".into();
+        }
+        let j = if self.rng.coin() { " and " } else { " or " };
+        terms.join(j)
+    }
+
     unsafe fn op_filter(&mut self) {
         match self.rng.below(5) {
             0 | 1 => {
@@ -999,6 +1044,7 @@ impl<'a> World<'a> {
                     0 | 1 => String::new(),
                     2 => "a and".into(),
                     3 => "(((".into(),
+                    4 | 5 => self.filter_from_live_data(),
                     _ => {
                         let f = crate::reffilter::gen_or(&mut self.rng, 1, true);
                         crate::reffilter::print_filter(&mut self.rng, &f, false).replace('\0', "")
@@ -1070,14 +1116,25 @@ impl<'a> World<'a> {
                     if all {
                         let rows: Vec<Dict> = g.filter_all(&f).into_iter().cloned().collect();
                         let wr = if rows.is_empty() { ResultType::FALSE } else { ResultType::TRUE };
+                        if !rows.is_empty() {
+                            self.ctx.stratum("capi:filter-grid:some-row-matches");
+                        }
                         let got_rows: Vec<Dict> = if let Value::Grid(o) = &*out { o.rows.clone() } else { vec![] };
                         let same_rows = got_rows.len() == rows.len() && got_rows.iter().zip(&rows).all(|(a, b)| same(&Value::make_dict(a.clone()), &Value::make_dict(b.clone())));
+                        // the whole answer: the grid the Rust API builds from the matching rows (columns from the rows, the source grid's meta)
+                        let want_grid = Value::make_grid(match &g.meta {
+                            Some(m) => Grid::make_from_dicts_with_meta(rows.clone(), m.clone()),
+                            None => Grid::make_from_dicts(rows.clone()),
+                        });
                         if r != wr || !(*out).is_grid() || !same_rows {
                             self.fail(op, class, "result-differs-from-rust", format!("{r:?} vs {wr:?}; {} rows vs {}", got_rows.len(), rows.len()));
+                        } else if !same(&*out, &want_grid) {
+                            self.fail(op, class, "result-grid-differs-from-rust", format!("{} rows; columns or meta differ", rows.len()));
                         }
                     } else {
                         match Filtered::filter(&g, &f) {
                             Some(d) => {
+                                self.ctx.stratum("capi:filter-grid:some-row-matches");
                                 if r != ResultType::TRUE || !same(&*out, &Value::make_dict(d.clone())) {
                                     self.fail(op, class, "result-differs-from-rust", format!("{r:?}"));
                                 }
@@ -1485,7 +1542,73 @@ pub unsafe fn null_sweep(ctx: &mut Ctx) {
     }
 }
 
+/// Failing calls whose error message quotes caller-supplied text, for texts of every byte length up to `max` made of
+/// 1-, 2-, 3- and 4-byte characters: each must return its sentinel and leave a retrievable message (and, for C18,
+/// must not take the process down whatever the message length is).
+unsafe fn error_text_sweep(ctx: &mut Ctx, max: usize) {
+    let date = own(haystack_value_make_date(2020, 1, 2));
+    let time = own(haystack_value_make_time(1, 2, 3));
+    let _ = take_err();
+    let mut calls = 0u64;
+    for ch in ["q", "\u{e9}", "\u{20ac}", "\u{1f600}"] {
+        for offset in 0..4usize {
+            let mut n = 1usize;
+            while offset + n * ch.len() <= max {
+                let body = format!("{}{}", "Q".repeat(offset), ch.repeat(n));
+                n += 1;
+                // texts that none of the five entry points accepts: not a unit, not a zone, not Zinc, not JSON, not a filter
+                for (name, text) in [("make_number_with_unit", format!("{body}~")), ("make_tz_datetime", format!("{body}~")), ("from_zinc_string", format!("{body}\"")), ("from_json_string", format!("{{\"{body}")), ("filter_parse", format!("{body} ==="))] {
+                    let c = cstr(&text);
+                    let failed = match name {
+                        "make_number_with_unit" => haystack_value_make_number_with_unit(1.0, c.as_ptr()).map(|b| drop(b)).is_none(),
+                        "make_tz_datetime" => haystack_value_make_tz_datetime(date, time, c.as_ptr()).map(|b| drop(b)).is_none(),
+                        "from_zinc_string" => haystack_value_from_zinc_string(c.as_ptr()).map(|b| drop(b)).is_none(),
+                        "from_json_string" => haystack_value_from_json_string(c.as_ptr()).map(|b| drop(b)).is_none(),
+                        _ => match haystack_filter_parse(c.as_ptr()) {
+                            Some(f) => {
+                                haystack_filter_destroy(Box::into_raw(f));
+                                false
+                            }
+                            None => true,
+                        },
+                    };
+                    calls += 1;
+                    let p = last_error_message();
+                    let msg = if p.is_null() {
+                        None
+                    } else {
+                        let bytes = CStr::from_ptr(p).to_bytes().to_vec();
+                        haystack_string_destroy(p as *mut c_char);
+                        Some(bytes)
+                    };
+                    if !failed {
+                        ctx.violation(&format!("capi:error-text:{name}:invalid-text-accepted"), &format!("{name} accepted {:?}", truncate(&text, 80)), json!({"bytes": text.len()}));
+                    } else {
+                        match msg {
+                            None => ctx.violation(&format!("capi:error-text:{name}:failure-without-error-message"), &format!("{name} failed on a {}-byte text but last_error_message() is null", text.len()), json!({"bytes": text.len()})),
+                            Some(b) if b.is_empty() || std::str::from_utf8(&b).is_err() => ctx.violation(&format!("capi:error-text:{name}:message-not-text"), &format!("{name}: the error message for a {}-byte text is empty or not UTF-8", text.len()), json!({"bytes": text.len()})),
+                            Some(_) => {}
+                        }
+                    }
+                }
+            }
+        }
+        ctx.eval("error-text", crate::prng::hash_str(ch), true);
+    }
+    ctx.evaluations += calls;
+    ctx.note_add("error_text_calls", calls);
+    haystack_value_destroy(date);
+    haystack_value_destroy(time);
+}
+
 pub fn run(ctx: &mut Ctx, c18: bool) {
+    // failing calls with long / non-ASCII quoted input (shard 0 only: deterministic)
+    if ctx.shard == 0 && ctx.begin("error-text", 0) {
+        // (phases run at a reduced scale - the quick sanitizer phase - sweep a shorter range)
+        let max = if cfg!(miri) { 40 } else if ctx.scale < 1.0 { 300 } else { 1100 };
+        unsafe { error_text_sweep(ctx, max) };
+        ctx.stratum("error-text-completed");
+    }
     // C18: null sweep first (its own announced case so a signal is attributable)
     if c18 && ctx.begin("null-sweep", 0) {
         unsafe { null_sweep(ctx) };
